@@ -44,6 +44,46 @@ fn history<const D: usize>(hid: usize, rng: &mut Rng, out: &mut Out, steps: usiz
     }
 }
 
+/// stratified sweep: every (topology guarantee, repair policy) pair meets every degenerate point
+/// class (on a hull facet's hyperplane outside the facet, collinear beyond a vertex, midpoints),
+/// which random histories combine too rarely
+fn sweep<const D: usize>(rng: &mut Rng, out: &mut Out, reps: usize) {
+    use delaunay::core::delaunay_triangulation::{DelaunayCheckPolicy, DelaunayRepairPolicy};
+    use delaunay::core::triangulation::ValidationPolicy;
+    let n2 = std::num::NonZeroUsize::new(2).unwrap();
+    let mut n = 0usize;
+    for g in 0..3usize {
+        for rpi in 0..3usize {
+            for (class, vpi) in [(10u64, 0usize), (10, 1), (10, 2), (11, 0), (11, 1), (11, 2), (5, 0), (5, 1), (5, 2)] {
+                for rep in 0..reps {
+                    n += 1;
+                    let np = D + 1 + rng.below(3) as usize;
+                    let ps = gens::point_set(rng, D, np);
+                    let Some(mut w): Option<World<D>> = hist::start_built::<D>(&ps.pts, g, rng) else { continue };
+                    if w.dt.number_of_cells() == 0 { continue; }
+                    let vp = [ValidationPolicy::OnSuspicion, ValidationPolicy::Never, ValidationPolicy::Always][vpi];
+                    let rp = [DelaunayRepairPolicy::Never, DelaunayRepairPolicy::EveryInsertion, DelaunayRepairPolicy::EveryN(n2)][rpi];
+                    let _ = crate::common::catch(|| w.dt.set_validation_policy(vp));
+                    w.dt.set_delaunay_repair_policy(rp);
+                    w.dt.set_delaunay_check_policy(DelaunayCheckPolicy::EndOnly);
+                    w.check_on = false;
+                    w.repair_on = rpi != 0;
+                    let pol = format!("{vp:?}/{rp:?}/EndOnly").replace(' ', "");
+                    for s in 0..1 {
+                        let (p, cname) = w.pick_point_class(rng, 8, class);
+                        let with_stats = rng.chance(1, 2);
+                        let (obs, _inserted) = w.do_insert(p, with_stats, rng);
+                        let args = format!("{} class={cname} pol={pol} stats={}", w.expect_args(false), with_stats as u8);
+                        w.emit_state(&format!("sw{D}_{g}_{rpi}_{class}_{vpi}_{rep}_{s}"), "insert", &args, &obs, out, false);
+                        if w.dt.number_of_cells() > 0 && w.dt.as_triangulation().is_valid().is_err() { break; }
+                    }
+                }
+            }
+        }
+    }
+    let _ = n;
+}
+
 pub fn run(cfg: &Cfg, rng: &mut Rng, out: &mut Out) {
     let thorough = cfg.tier == "thorough";
     let nh = if thorough { 40 } else { 6 };
@@ -55,4 +95,9 @@ pub fn run(cfg: &Cfg, rng: &mut Rng, out: &mut Out) {
             history::<5>(h, rng, out, if thorough { 12 } else { 9 });
         }
     }
+    let reps = if thorough { 4 } else { 1 };
+    sweep::<2>(rng, out, reps);
+    sweep::<3>(rng, out, reps);
+    sweep::<4>(rng, out, reps);
+    sweep::<5>(rng, out, reps);
 }
